@@ -20,7 +20,7 @@ FIXED_TEMPLATES = ["x = p and @@\n", "x = @@ and q\n", "x = p or @@\n", "x = @@ 
 def tokens_of(text):
     X = repo().real
     T = X.tokenize.Token
-    return [levelb.Slot(kind=(t.type.name, t.string)) for t in X.tokenize.generate_tokens(text)
+    return [levelb.Slot(kind=(t.type.name, t.string)) for t in (oracles.safe_tokens(X, text) or [])
             if t.type not in (T.WS, T.NEWLINE, T.NL, T.ENDMARKER, T.COMMENT)]
 
 
@@ -79,9 +79,8 @@ def seed_templates(texts, rng, per_text):
     T = X.tokenize.Token
     out = []
     for t in texts:
-        try:
-            toks = list(X.tokenize.generate_tokens(t))
-        except Exception:  # noqa: BLE001
+        toks = oracles.safe_tokens(X, t)
+        if toks is None:
             continue
         lines = t.splitlines(keepends=True)
         starts = [0]
